@@ -33,12 +33,27 @@ import (
 
 // ---- universes
 
-var c08Rules = []string{"ignored.example", "||ads.test^", "*.wild.test", "|.^", "UPPER.Example", "||sub.ok.example^", "track"}
+// configured ignore entries of the forms the model covers (Model/IgnoreEngine.v):
+// plain names (some with capitals: NewIgnoreEngine lower-cases the list), ||d^,
+// wildcards, the root, anchors, names urlfilter does not take for domain names
+// (they become substring patterns: short last label, underscore, digit in the
+// TLD), a too-wide pattern (dropped), an IDN name with an xn-- TLD
+var c08Rules = []string{"ignored.example", "||ads.test^", "*.wild.test", "|.^", "UPPER.Example", "||sub.ok.example^", "track",
+	"Mixed.Case.Test", "||ADS.Upper^", "a.b", "x", "my_host.lan", "example.c0m", "xn--e1afmkfd.xn--p1ai", "*.Cap.Wild",
+	"|start.anch", "end.anch|", "ads*.star.test"}
+
+// entries outside the modelled forms: the evaluator falls back to the oracle
+// table for a list that contains one
+var c08RulesOutside = []string{"@@||white.test^", "||opt.test^$important", "/regex\\.test/", "1.2.3.4 hosts.test", "# comment",
+	"||dns.test^$dnstype=A"}
 
 // normalised names the generator draws from (spelled in random case, with or
 // without the trailing dot)
 var c08Names = []string{"ignored.example", "x.ignored.example", "ads.test", "a.ads.test", "foo.wild.test", "wild.test", ".",
-	"ok.example", "sub.ok.example", "upper.example", "tracker.example", "plain.test"}
+	"ok.example", "sub.ok.example", "upper.example", "tracker.example", "plain.test",
+	"mixed.case.test", "ads.upper", "sub.ads.upper", "xa.bx.test", "x", "my_host.lan", "example.c0m", "xn--e1afmkfd.xn--p1ai",
+	"foo.cap.wild", "start.anch", "start.anchor", "end.anch", "pre.end.anch", "ads1.star.test", "white.test", "opt.test",
+	"regex.test", "hosts.test", "track", "dns.test"}
 
 var c08Addrs = []string{"192.168.1.5", "192.168.1.6", "192.168.0.0", "192.168.77.1", "10.0.0.7",
 	"2001:db8::1234:5678", "2001:db8::", "2001:db8:0:1:1:2:3:4", "::ffff:192.168.1.5", "fe80::1%eth0"}
@@ -118,12 +133,125 @@ func c08Entry(name, ip, cid string) string {
 	return "(" + vfBytes(name) + ", " + vfBytes(c08IPBytes(ip)) + ", " + vfBytes(cid) + ")"
 }
 
+// c08Table: Has(name) of the real engine for every name of the universe, in
+// the order of c08Names
 func c08Table(e *aghnet.IgnoreEngine) string {
 	items := make([]string, len(c08Names))
 	for i, n := range c08Names {
-		items[i] = vfPair(vfBytes(n), vfBool(e.Has(n)))
+		items[i] = vfBool(e.Has(n))
 	}
-	return vfList("bytes * bool", items)
+	return vfList("bool", items)
+}
+
+func c08NamesCoq() string {
+	items := make([]string, len(c08Names))
+	for i, n := range c08Names {
+		items[i] = vfBytes(n)
+	}
+	return vfList("bytes", items)
+}
+
+func c08RulesCoq(rules []string) string {
+	items := make([]string, len(rules))
+	for i, r := range rules {
+		items[i] = vfBytes(r)
+	}
+	return vfList("bytes", items)
+}
+
+// c08IsName: a lower-case dotted name whose last label is alphabetic and at
+// least two letters long (what every reader takes for a domain name).
+func c08IsName(s string) bool {
+	if s == "" || !strings.Contains(s, ".") {
+		return false
+	}
+	labels := strings.Split(s, ".")
+	for _, l := range labels {
+		if l == "" || l[0] == '-' || l[len(l)-1] == '-' {
+			return false
+		}
+		for i := 0; i < len(l); i++ {
+			if !(l[i] >= 'a' && l[i] <= 'z' || l[i] >= '0' && l[i] <= '9' || l[i] == '-') {
+				return false
+			}
+		}
+	}
+	tld := labels[len(labels)-1]
+	if len(tld) < 2 {
+		return false
+	}
+	for i := 0; i < len(tld); i++ {
+		if !(tld[i] >= 'a' && tld[i] <= 'z') {
+			return false
+		}
+	}
+	return true
+}
+
+// c08SpecIgnored is the property's own reading of the unambiguous entry forms,
+// independent of urlfilter and of the letter case of the configured entry: a
+// plain domain name ignores exactly that name, ||d^ ignores d and its
+// subdomains, *.d ignores the subdomains of d, |.^ ignores the root.
+func c08SpecIgnored(rules []string, norm string) (bool, string) {
+	for _, r := range rules {
+		l := strings.ToLower(r)
+		switch {
+		case l == "|.^":
+			if norm == "." {
+				return true, r
+			}
+		case strings.HasPrefix(l, "||") && strings.HasSuffix(l, "^") && c08IsName(l[2:len(l)-1]):
+			d := l[2 : len(l)-1]
+			if norm == d || strings.HasSuffix(norm, "."+d) {
+				return true, r
+			}
+		case strings.HasPrefix(l, "*.") && c08IsName(l[2:]):
+			if strings.HasSuffix(norm, "."+l[2:]) && len(norm) > len(l)-1 {
+				return true, r
+			}
+		case c08IsName(l):
+			if norm == l {
+				return true, r
+			}
+		}
+	}
+	return false, ""
+}
+
+func c08RuleClasses(cls map[string]bool, rules []string) {
+	modelled := true
+	for _, r := range rules {
+		for _, o := range c08RulesOutside {
+			if strings.EqualFold(r, o) {
+				modelled = false
+			}
+		}
+		l := strings.ToLower(r)
+		if l != r {
+			cls["rule-mixed-case"] = true
+		}
+		switch {
+		case l == "|.^":
+			cls["rule-root"] = true
+		case strings.HasPrefix(l, "||"):
+			cls["rule-domain"] = true
+		case strings.Contains(l, "*"):
+			cls["rule-wildcard"] = true
+		case c08IsName(l) || l == "track" || strings.HasPrefix(l, "xn--"):
+			cls["rule-plain"] = true
+		case len(l) < 3:
+			cls["rule-too-wide"] = true
+		default:
+			cls["rule-substring"] = true
+		}
+	}
+	if len(rules) > 0 {
+		if modelled {
+			cls["engine-modelled"] = true
+		} else {
+			cls["engine-oracle"] = true
+		}
+	}
 }
 
 // ---- the monitor's own notion of things
@@ -217,6 +345,7 @@ type c08Scen struct {
 	anon     bool
 	refuse   bool
 	qRules   []string
+	sRules   []string
 	uids     map[client.UID]uint64
 	cls      map[string]*client.Persistent
 	evs      []string
@@ -267,7 +396,7 @@ func c08New(t *testing.T, base string, n int, anon, refuse bool, qRules, sRules 
 	if err := os.MkdirAll(dir, 0o755); err != nil {
 		t.Fatal(err)
 	}
-	sc := &c08Scen{t: t, dir: dir, anon: anon, refuse: refuse, qRules: qRules, handlers: map[string]http.HandlerFunc{},
+	sc := &c08Scen{t: t, dir: dir, anon: anon, refuse: refuse, qRules: qRules, sRules: sRules, handlers: map[string]http.HandlerFunc{},
 		anonSeen: anon, uids: map[client.UID]uint64{}, cls: map[string]*client.Persistent{}, cls2: map[string]bool{},
 		allowLog: map[string]int{}, allowStat: map[string]int{}, allowDom: map[string]int{}}
 	sc.dhcp = &c08DHCP{tbl: map[netip.Addr]net.HardwareAddr{}}
@@ -298,6 +427,14 @@ func c08New(t *testing.T, base string, n int, anon, refuse bool, qRules, sRules 
 	if err != nil {
 		t.Fatal(err)
 	}
+	// An existing, empty log file: the start-up rotation check (a goroutine of
+	// Start) finds nothing to date and leaves the file alone.  Without it the
+	// check treats a missing file as infinitely old and renames whatever the
+	// first flush wrote in the meantime to querylog.json.1, at a moment that
+	// depends on the scheduler.
+	if err = os.WriteFile(filepath.Join(dir, "querylog.json"), nil, 0o644); err != nil {
+		t.Fatal(err)
+	}
 	_ = sc.ql.Start(context.Background())
 	sc.st, err = stats.New(stats.Config{
 		Logger: slogutil.NewDiscardLogger(), ConfigModified: func() {}, ShouldCountClient: sc.shouldCountClient,
@@ -308,7 +445,10 @@ func c08New(t *testing.T, base string, n int, anon, refuse bool, qRules, sRules 
 	sc.st.Start()
 	sc.srv = &Server{baseLogger: slogutil.NewDiscardLogger(), queryLog: sc.ql, stats: sc.st, anonymizer: sc.mut}
 	sc.srv.conf.RefuseAny = refuse
-	sc.head = vfBool(anon) + " " + vfBool(refuse) + " " + c08Table(sc.qEngine) + " " + c08Table(sc.sEngine)
+	sc.head = vfBool(anon) + " " + vfBool(refuse) + " " + c08NamesCoq() + " " + c08RulesCoq(qRules) + " " + c08Table(sc.qEngine) +
+		" " + c08RulesCoq(sRules) + " " + c08Table(sc.sEngine)
+	c08RuleClasses(sc.cls2, qRules)
+	c08RuleClasses(sc.cls2, sRules)
 	return sc
 }
 
@@ -381,6 +521,14 @@ func (sc *c08Scen) query(spelled string, any bool, addr netip.Addr, cid string) 
 		sc.cls2["anon-off"] = true
 	}
 	nameIgnQ, nameIgnS := sc.qEngine.Has(norm), sc.sEngine.Has(norm)
+	// ... and by the property's own reading of the configured entries, whatever
+	// the engine built from them says
+	if ign, _ := c08SpecIgnored(sc.qRules, norm); ign {
+		nameIgnQ = true
+	}
+	if ign, _ := c08SpecIgnored(sc.sRules, norm); ign {
+		nameIgnS = true
+	}
 	mayLog := !nameIgnQ && !(owner != nil && owner.IgnoreQueryLog)
 	mayCount := !nameIgnS && !(owner != nil && owner.IgnoreStatistics)
 	if nameIgnQ || nameIgnS {
@@ -501,7 +649,8 @@ func (sc *c08Scen) setConf(enabled, anon bool, rules []string) {
 	sc.qRules = rules
 	sc.qEngine, _ = aghnet.NewIgnoreEngine(rules)
 	obs := sc.readConf()
-	sc.evs = append(sc.evs, vfApp("SConf", vfBool(enabled), vfBool(anon), c08Table(sc.qEngine), obs))
+	sc.evs = append(sc.evs, vfApp("SConf", vfBool(enabled), vfBool(anon), c08RulesCoq(rules), c08Table(sc.qEngine), obs))
+	c08RuleClasses(sc.cls2, rules)
 	sc.desc = append(sc.desc, fmt.Sprintf("PUT querylog/config/update enabled=%v anonymize=%v ignored=%v", enabled, anon, rules))
 	sc.cls2["config-change"] = true
 }
@@ -563,6 +712,9 @@ func (sc *c08Scen) search(tag string) {
 		// the property on what the API reports
 		if sc.qEngine.Has(e.Question.Name) {
 			sc.fail("search-returns-ignored-name", fmt.Sprintf("search (%s) returns an entry for %q, which the current ignore list %v matches", tag, e.Question.Name, sc.qRules))
+		}
+		if ign, by := c08SpecIgnored(sc.qRules, e.Question.Name); ign {
+			sc.fail("search-returns-ignored-name", fmt.Sprintf("search (%s) returns an entry for %q although the current ignore list has the entry %q", tag, e.Question.Name, by))
 		}
 		a, _ := netip.ParseAddr(e.Client)
 		if sc.anon && !c08Masked(a) {
@@ -708,7 +860,7 @@ func c08Prelude(t *testing.T, out *vfOut, base string) (n int) {
 	ap := netip.MustParseAddr
 	for _, anon := range []bool{false, true} {
 		// ignored names in every spelling, every rule form, both engines differing
-		sc := c08New(t, base, n, anon, true, c08Rules, []string{"||ads.test^", "ok.example"})
+		sc := c08New(t, base, n, anon, true, c08Rules, []string{"||ADS.test^", "OK.Example", "*.Wild.Test"})
 		n++
 		for _, nm := range c08Names {
 			sc.query(c08Spell(nil, nm), false, ap("192.168.1.5"), "")
@@ -753,8 +905,23 @@ func c08Prelude(t *testing.T, out *vfOut, base string) (n int) {
 		sc.query("ok.example.", false, ap("192.168.1.6"), "")
 		sc.finish(out, "prelude-clients")
 	}
-	// KNOWN FINDING C08-maclike-clientid-resolved-as-mac, minimal witness: the
-	// request belongs to b (by its /24), the finders read the ClientID as a's MAC
+	// entries outside the modelled forms (exception, options, regular expression,
+	// hosts line, comment): the oracle table decides in the model
+	{
+		sc := c08New(t, base, n, false, false, append([]string{"Mixed.Case.Test"}, c08RulesOutside...), c08RulesOutside[:3])
+		n++
+		for _, nm := range c08Names {
+			sc.query(c08Spell(nil, nm), false, ap("192.168.1.5"), "")
+		}
+		sc.search("memory")
+		sc.setConf(true, false, []string{"||ADS.Upper^", "a.b"})
+		sc.search("memory-after-change")
+		sc.flush()
+		sc.search("file")
+		sc.finish(out, "prelude-rules-outside")
+	}
+	// witness of the repaired finding C08-maclike-clientid-resolved-as-mac (db79ee9): the
+	// request belongs to b (by its /24); the finders used to read the ClientID as a's MAC
 	for _, anon := range []bool{false, true} {
 		sc := c08New(t, base, n, anon, false, nil, nil)
 		n++
@@ -807,11 +974,27 @@ func c08Prelude(t *testing.T, out *vfOut, base string) (n int) {
 }
 
 func c08Rand(t *testing.T, out *vfOut, base string, n int, r *vfRand) {
+	// 0-6 entries of the modelled forms, each in the listed or in a random
+	// letter case; one list in six also gets an entry outside the model
 	pickRules := func() (rs []string) {
 		for _, x := range c08Rules {
-			if r.Chance(1, 3) {
+			if r.Chance(1, 7) {
+				if r.Chance(1, 3) {
+					b := []byte(x)
+					for i := range b {
+						if b[i] >= 'a' && b[i] <= 'z' && r.Bool() {
+							b[i] -= 32
+						} else if b[i] >= 'A' && b[i] <= 'Z' && r.Bool() {
+							b[i] += 32
+						}
+					}
+					x = string(b)
+				}
 				rs = append(rs, x)
 			}
+		}
+		if r.Chance(1, 6) {
+			rs = append(rs, vfPick(r, c08RulesOutside))
 		}
 		return rs
 	}
